@@ -383,11 +383,13 @@ impl<T, S: Status, A: Clone + Allocator> RawTable<T, S, A> {
             let status = slot.status;
             slot.status = S::FREE;
             if status.is_hash() {
+                // Update `len` before dropping the entry: dropping may panic,
+                // and `len` must always agree with the slots' states.
+                self.len -= 1;
                 // SAFETY: hash status means that the data is initialized. We
                 // marked the slot as `FREE` above, so there is no danger of
                 // double frees.
                 unsafe { slot.data.assume_init_drop() };
-                self.len -= 1;
                 if self.len == 0 {
                     return;
                 }
